@@ -50,12 +50,12 @@ def run(ck, w):
             ck.fail(o, vd.name, "walk tests something other than the child's full apath", "argument from %s" % flow.origin_summary(a), m[0].site())
     sn = w.body("index::stitch::Stitch::next")
     o = ck.ob("C15.1b", "archive reader: Exclude::matches is asked about the entry's own apath, on self.exclude")
-    m2 = events_of(lib, sn, "excludes::Exclude::matches")
+    m2 = rules.predicate_sites(lib, sn, "excludes::Exclude::matches")     # direct, or through a private bool helper
     if len(m2) != 1:
         ck.fail(o, sn.name, "no unique exclusion test in the reader", "found %d" % len(m2))
     else:
-        a = flow.origins_x(lib, sn, m2[0].args[1])
-        r = flow.origins_x(lib, sn, m2[0].args[0])
+        a = m2[0].arg_origins(1)
+        r = m2[0].arg_origins(0)
         if any(x[0] == "call" and "apath" in x[3] for x in a) and any(x[0] in ("param", "upvar") and "exclude" in x[2] for x in r):
             ck.ok(o, sites=[m2[0].site()])
         else:
